@@ -51,10 +51,31 @@ def traces_match(ref, real):
         memo[key] = r
         return r
 
-    if len(ref) + len(real) > 400:
-        old = sys.getrecursionlimit()
-        sys.setrecursionlimit(max(old, 4 * (len(ref) + len(real)) + 200))
+    if len(ref) + len(real) > 200:
+        # iterative fallback for long traces: optional events are rare there, compare greedily both ways
+        core_ref = strip_opt(ref)
+        return list(core_ref) == list(real) or [e[:3] for e in ref] == list(real) or _match_iter(ref, real)
     return go(0, 0)
+
+
+def _match_iter(ref, real):
+    """Breadth-first matching without recursion."""
+    states = {(0, 0)}
+    while states:
+        nxt = set()
+        for i, j in states:
+            if i == len(ref):
+                if j == len(real):
+                    return True
+                continue
+            if is_opt(ref[i]):
+                nxt.add((i + 1, j))
+                if j < len(real) and real[j] == ref[i][:3]:
+                    nxt.add((i + 1, j + 1))
+            elif j < len(real) and real[j] == ref[i]:
+                nxt.add((i + 1, j + 1))
+        states = nxt
+    return False
 
 
 def strip_opt(ref):
@@ -152,16 +173,6 @@ def run_case(program, ops, truth, model=None, loaded=None, hooks=None, scripts=N
         res.ref_log, res.ref_outs, res.ref = REF.run_ops(model, live, truth, scripts=scripts, fuel=fuel, **rk)
 
         def go():
-            if stack_mb:
-                import sys
-
-                old = sys.getrecursionlimit()
-                sys.setrecursionlimit(60000)
-                try:
-                    return RUN.execute(loaded, live, truth, hooks=hooks, event_budget=event_budget, scripts=scripts,
-                                       fuel=fuel)
-                finally:
-                    sys.setrecursionlimit(old)
             return RUN.execute(loaded, live, truth, hooks=hooks, event_budget=event_budget, scripts=scripts, fuel=fuel)
 
         if fresh_thread:
